@@ -1,18 +1,22 @@
 """C11 — shortest-path solvers return true shortest distances and real paths."""
 
 ID = "C11"
-RULE = ("composite cases: one seeded digraph (1-9 nodes, 10-16 in the bigger stratum; strata aim at ties/zero-weight cycles, duplicate arcs with "
-        "different weights, self loops, detours that beat a direct arc, chains whose arcs are listed in reverse, "
-        "negative weights with reachable / unreachable / absent negative cycles, dyadic float weights, arbitrary "
-        "hashable labels, goal as value or (multi-node) predicate, max_cost / max_iter at the decisive boundary) is "
-        "given to every solver that accepts it (~45 calls plus a sweep of dijkstra/astar over every other target: dijkstra, astar with h=0 / exact / half, dijkstra_edges, "
-        "bellman_ford, floyd_warshall directed+undirected, bfs, dfs, bfs_edges, dfs_edges; default and "
-        "backend='python'); grid cases drive astar_grid (4/8 directions, every admissible built-in heuristic, "
-        "terrain costs >= 1, blocked as int or set). Every answer is judged against exact all-pairs distances "
-        "(Floyd-Warshall on ints/Fractions cross-checked with per-source label correcting; exact a+b*sqrt2 "
-        "arithmetic on grids) and every path by a certificate (source, goal, existing arcs, some choice of parallel "
-        "weights sums to the objective). non-trivial = the source reaches the goal by >= 2 different simple routes or "
-        "the case has a negative arc / obstacle; distinct = distinct case data")
+RULE = ("composite cases: one seeded digraph (1-9 nodes, 10-16 in the 'bigger' stratum; strata aim at ties and "
+        "zero-weight cycles, duplicate arcs with different weights, self loops, detours that beat a direct arc, "
+        "chains whose arcs are listed in reverse, negative weights with reachable / unreachable / absent negative "
+        "cycles, dyadic float weights, arbitrary hashable labels, goal as value or (multi-node) predicate, max_cost / "
+        "max_iter at the decisive boundary) is given to every solver that accepts it (~45 calls: dijkstra, astar with "
+        "h=0 / exact / half, dijkstra_edges, bellman_ford, floyd_warshall directed+undirected, bfs, dfs, bfs_edges, "
+        "dfs_edges; default and backend='python'; plus a sweep of dijkstra/astar over every other target with a "
+        "heuristic built for that target); grid cases (up to 8x8, random obstacles, barrier rows/columns with one "
+        "gap, terrain costs >= 1, blocked as int or set, start = goal, blocked and walled-off goals) drive "
+        "astar_grid in 4/8-neighbour mode with every admissible built-in heuristic. Every answer is judged against "
+        "exact all-pairs distances (Floyd-Warshall on ints/Fractions cross-checked with per-source label "
+        "correcting; exact a+b*sqrt2 arithmetic on grids) and every path by a certificate (source, goal, existing "
+        "arcs, some choice of parallel weights sums to the objective); raw answers of all solvers to the same query "
+        "are also compared pairwise. non-trivial = the goal is reachable, is not the source and at least two "
+        "non-loop arcs leave reachable nodes, or the case has a negative arc (grids: goal reachable, not the start, "
+        "obstacles or terrain present); distinct = distinct case data")
 ASSUMPTIONS = [
     "weights are ints or dyadic rationals (float sums exact): distances are compared with ==; grid costs within 1e-9 relative",
     "dijkstra/astar/dijkstra_edges only see non-negative weights; astar only sees heuristics that are admissible and consistent by construction, weight=1",
